@@ -103,7 +103,29 @@ func (h *hist) listStep() {
 	if len(quiet) > 0 && h.r.IntN(5) != 0 {
 		p := quiet[h.r.IntN(len(quiet))]
 		neg := ref.Clo([]string{"x"}, ref.Un("-", ref.Id("x")))
-		switch h.r.IntN(11) {
+		switch h.r.IntN(13) {
+		case 11, 12:
+			// the very first look at the unevaluated list is a comparison (with its model, with a longer and a
+			// shorter list): what the list knows about itself before it is evaluated must not decide it
+			if pl, ok := p.ref.(*ref.List); ok {
+				if items, e := h.in.Force(pl); e == nil {
+					mk := func(it []ref.Value) *handle {
+						l := &handle{ref: ref.NewList(it...), how: "model literal"}
+						l.real = toRealPlain(l.ref)
+						return l
+					}
+					other := mk(items)
+					switch h.r.IntN(3) {
+					case 1:
+						other = mk(append(append([]ref.Value{}, items...), int64(7)))
+					case 2:
+						if len(items) > 0 {
+							other = mk(items[:len(items)-1])
+						}
+					}
+					h.derive("equals-unevaluated", ref.ListN(ref.Try(ref.Bin("=", h0, ref.Id("h1")), ref.Str("failed")), ref.Try(ref.Bin("=", ref.Id("h1"), h0), ref.Str("failed")), ref.Method(h0, "size")), p, other)
+				}
+			}
 		case 8, 9:
 			// partial consumption of the unevaluated list: it must deliver all of its items to the next reader
 			k := int64(h.r.IntN(4))
